@@ -34,12 +34,22 @@ inductive RouterExpr where
   | layer (r : RouterExpr) (l : Layer)
   deriving Repr
 
-/-- One arm of `match (self.config.disable_https, listener)` in `IpaHttpServer::start_on`. -/
+/-- One arm of `match (self.config.disable_https, listener)` in `IpaHttpServer::start_on`:
+what the arm passes to `spawn_server`. -/
 structure StartArm where
   disableHttps : Bool
   listener : Bool
-  headerLayer : Bool   -- installs `SetClientIdentityFromHeader`
-  tlsAcceptor : Bool   -- serves through `ClientCertRecognizingAcceptor` (rustls)
+  /-- the make-service handed to `spawn_server` is (a binding of) the traced router wrapped in
+  `SetClientIdentityFromHeader` — whether the wrapping is written in the arm or in a `let` before
+  the `match` -/
+  headerLayer : Bool
+  /-- the server handed to `spawn_server` accepts through `ClientCertRecognizingAcceptor` over
+  `from_tcp_rustls` / `bind_rustls` -/
+  tlsAcceptor : Bool
+  /-- `false`: the translator did not recognise the shape of this arm; the other fields are then the
+  fallback "what the property demands" so that the model stays executable (the translator item is
+  reported broken and the per-arm theorems fail) -/
+  recognised : Bool := true
   deriving DecidableEq, Repr
 
 end IpaVerif.Auth
